@@ -80,7 +80,8 @@ Inductive instr :=
 | IPrimeStart            (* [next(_iterator)]: the generator starts running *)
 | IPrimeBind             (* [_iterate]: [self._render_data = render_data] ... *)
 | IPrimeSetup            (* [_iterate]: [get_padded_size] (padding code), frame cache allocation *)
-| IPrimeYield.           (* [_iterate]: reaches [yield DUMMY_FRAME] *)
+| IPrimeYield            (* [_iterate]: reaches [yield DUMMY_FRAME] *)
+| IReturn.               (* the constructor hands the finished object back ([return new]) *)
 
 Definition set_closed (o : obj) v := {| a_closed := v; a_iter := a_iter o; a_rdata := a_rdata o; a_flag := a_flag o |}.
 Definition set_iter (o : obj) v := {| a_closed := a_closed o; a_iter := v; a_rdata := a_rdata o; a_flag := a_flag o |}.
@@ -122,6 +123,7 @@ Definition exec1 (s : cstate) (i : instr) : option cstate :=
                                         | Some GRunning => Some (set_iter o (Some GSuspended))
                                         | _ => None
                                         end)
+  | IReturn => with_obj s Some
   end.
 
 (** an exception leaves the constructor: a generator that was running has raised *)
@@ -204,9 +206,9 @@ Definition start (kd : kind) : cstate :=
 
 (** the code, _iterator.py:130-143 / 448-506 *)
 Definition prog_init : list instr :=
-  [IAlloc; IInit; IGetData; IMakeGen; ISetFlag true; IPrimeStart; IPrimeBind; IPrimeSetup; IPrimeYield].
+  [IAlloc; IInit; IGetData; IMakeGen; ISetFlag true; IPrimeStart; IPrimeBind; IPrimeSetup; IPrimeYield; IReturn].
 Definition prog_frd (f : bool) : list instr :=
-  [IAlloc; IInit; ICheckData; IMakeGen; ISetFlag f; IPrimeStart; IPrimeBind; IPrimeSetup; IPrimeYield].
+  [IAlloc; IInit; ICheckData; IMakeGen; ISetFlag f; IPrimeStart; IPrimeBind; IPrimeSetup; IPrimeYield; IReturn].
 Definition prog_of (kd : kind) : list instr :=
   match kd with KInit => prog_init | KKeep => prog_frd false | KGive => prog_frd true end.
 
@@ -214,7 +216,7 @@ Definition prog_of (kd : kind) : list instr :=
     constructors, the caller's choice is recorded once the iterator is set up *)
 Definition prog_frd_default_first (f : bool) : list instr :=
   [IAlloc; IInit; ISetFlag true; ICheckData; IMakeGen; IPrimeStart; IPrimeBind; IPrimeSetup; IPrimeYield;
-   ISetFlag f].
+   ISetFlag f; IReturn].
 
 (** the life of one construction: run it with a fault at [k], drop the object; [after_drop]: the
     iterator is gone, the caller of [_from_render_data_] still holds its data; [the_end]: the
